@@ -16,7 +16,9 @@ Vocabulary
 * every asynkit wrapper is a `Body` built over an inner `Obj` (`…B`) and the object made from it
   (`…O`).  `Body → Body` versions for coroutine bodies are at the end (`coroIter b` …).
 
-Contexts (`context.run`) are not modelled here (property C04); `context=None` paths only.
+Contexts (`context.run`) are not modelled here (property C04); `context=None` paths only, where
+`CoroStart._resume(method, *args)` (the single place every resumption goes through since /repo
+42736ef) is just `method(*args)`.  The handshake-flag behaviour is that of /repo 59f4f3e.
 -/
 import Asynkit.Model.Proto
 
